@@ -16,7 +16,7 @@ from optimum.quanto.tensor.qbits.packed import PackedTensor
 
 ACT = {"none": None, "qint8": O.QT8["qint8"], "qfloat8_e4m3fn": O.QT8["qfloat8_e4m3fn"], "qfloat8_e5m2": O.QT8["qfloat8_e5m2"]}
 STEPS = ["forward", "calibrate", "calibrate-grad", "freeze", "freeze", "freeze_again", "deepcopy", "to_cpu_copy", "reload", "channels_last", "continue_on_copy",
-         "freeze_one", "freeze_one"]
+         "freeze_one", "freeze_one", "to_inplace", "to_inplace"]
 
 
 @st.composite
@@ -286,6 +286,22 @@ def _exec_history(case):
                 check_frozen_storage(out, m2, wq, st_.replace("continue_on_copy", "deepcopy"))
             if st_ == "continue_on_copy":
                 model = m2
+        elif st_ == "to_inplace":
+            # moving the model itself (not a copy): model.to(device) / .cpu() after whatever ran before
+            y0 = run_probes(model)
+            if isinstance(y0, Raised):
+                return out.fail(f"forward-raises:{y0.type}/{'frozen' if frozen else 'unfrozen'}", y0.text)
+            how = (case["seed"] + len(did)) % 3
+            r = cut(lambda: model.to("cpu") if how == 0 else (model.cpu() if how == 1 else model.to(torch.device("cpu"), non_blocking=True)))
+            if isinstance(r, Raised):
+                return out.fail(f"to-raises:{r.type}/{wk}/{'frozen' if frozen else 'unfrozen'}", f"{r.text} (steps so far {did})")
+            y1 = run_probes(model)
+            if isinstance(y1, Raised):
+                return out.fail(f"to_inplace/forward-raises:{y1.type}", y1.text)
+            if not same_outputs(y0, y1):
+                out.fail(f"to_inplace/{wk}/output-changed", f"outputs differ after model.to(cpu) ({'frozen' if frozen else 'unfrozen'}, {case['wq']}, act {case['aq']})")
+            if frozen:
+                check_frozen_storage(out, model, wq, "to_inplace")
         elif st_ == "channels_last":
             if fam != "conv" or frozen or "freeze_one" in did:
                 continue  # (memory-format changes of an already (partially) frozen model are not part of the property)
@@ -294,7 +310,7 @@ def _exec_history(case):
                 return out.fail(f"channels_last-raises:{r.type}/{'frozen' if frozen else 'unfrozen'}", r.text)
         did.append(st_)
     fi = [i for i, s in enumerate(did) if s == "freeze"]
-    out.nontrivial = bool(fi) and "forward" in did[: fi[0] + 1] + ["forward"] and (any(s in ("freeze_again", "deepcopy", "reload", "to_cpu_copy", "continue_on_copy", "freeze") for s in did[fi[0] + 1 :]) or "freeze_one" in did[: fi[0]])
+    out.nontrivial = bool(fi) and "forward" in did[: fi[0] + 1] + ["forward"] and (any(s in ("freeze_again", "deepcopy", "reload", "to_cpu_copy", "continue_on_copy", "freeze", "to_inplace") for s in did[fi[0] + 1 :]) or "freeze_one" in did[: fi[0]])
     return out
 
 
